@@ -2,3 +2,5 @@ import OFModel.Allow
 import OFModel.Gen.Facts
 import OFModel.Zmq.Receiver
 import OFModel.Zmq.Sender
+import OFModel.Codec
+import OFModel.Redact
